@@ -1241,8 +1241,10 @@ func (c *Client) RemoteUpdate(
 		return nil
 	}
 
-	// execute or fallback
-	c.clockUpdate(update, false)
+	// execute or fallback (this is the read loop, so sync in a fork)
+	if !c.clockUpdate(update, false) {
+		go c.Sync()
+	}
 
 	return nil
 }
@@ -1258,9 +1260,9 @@ func (c *Client) RemoteUpdateMutations(
 		return nil
 	}
 
-	// execute or fallback
+	// execute or fallback (this is the read loop, so sync in a fork)
 	if !c.clockUpdateMutations(updates) {
-		c.Sync()
+		go c.Sync()
 	}
 
 	return nil
